@@ -320,6 +320,8 @@ class Folder(FileSystemItemABC):
 
         file.restore()
         self.files[file.uuid] = file
+        # requests addressed to this name must reach the live file again (a later file of the same name may have taken the entry)
+        self._file_request_manager.add_request(file.name, RequestType(func=file._request_manager))
         return True
 
     def quarantine(self):
